@@ -79,6 +79,16 @@ def m2(M):
 def run_impl(m):
     ar, gr, ts = mods()
     op = m['op']
+    if op == 'gcs':      # the relabelled model, built on the Python side by exchanging the channels
+        a = np.array(parse_flist(m['a'])).reshape(m['P'], 2, 2)
+        cov = np.array(parse_flist(m['cov'])).reshape(2, 2)
+        Pm = np.array([[0.0, 1.0], [1.0, 0.0]])
+        a_sw = np.array([Pm.dot(ak).dot(Pm) for ak in a])
+
+        def f():
+            w, fx2y, fy2x, fxy, Sw = ar.granger_causality_xy(a_sw, Pm.dot(cov).dot(Pm), n_freqs=m['nf'])
+            return 'ok %s %s %s %s' % (flist(np.real(fx2y)), flist(np.real(fy2x)), flist(np.real(fxy)), m2(Sw))
+        return call(f)
     if op in ('tf', 'sm', 'gc'):
         a = np.array(parse_flist(m['a'])).reshape(m['P'], 2, 2)
         nf = m['nf']
@@ -125,7 +135,7 @@ def line_of(m):
     op = m['op']
     if op == 'tf':
         return 'C12 tf %d %d %s' % (m['nf'], m['P'], m['a'])
-    if op in ('sm', 'gc'):
+    if op in ('sm', 'gc', 'gcs'):
         return 'C12 %s %d %d %s %s' % (op, m['nf'], m['P'], m['a'], m['cov'])
     if op == 'defij':
         return 'C12 defij %d' % m['n']
@@ -268,6 +278,8 @@ def judge(m, impl, clause):
         if m.get('zero') in ('yx', 'both') and np.abs(fx2y).max() > 1e-10:
             return fail('no-coupling', 'a[:,1,0] = 0 but f_x2y = %.3g' % np.abs(fx2y).max())
         return None
+    if op == 'gcs':
+        return None        # judged through its 'gc' partner (clause relabel); here only model-vs-implementation
     if op == 'defij':
         want = [(i, j) for j in range(m['n']) for i in range(j)]
         got = [] if g[0] == '-' else [tuple(int(t) for t in p.split(':')) for p in g[0].split(',')]
@@ -325,7 +337,7 @@ def cases(rng, tier, seed):
     nrng = common.np_rng(PID, seed, 'cases')
     big = tier == 'thorough'
     out = []
-    n_fn = 70 if not big else 1200
+    n_fn = 200 if not big else 4000
     for i in range(n_fn):
         P = int(nrng.randint(1, 7))
         zero = [None, None, 'xy', 'yx', 'both'][i % 5]
@@ -337,9 +349,11 @@ def cases(rng, tier, seed):
         out.append(mk_case(dict(base, op='tf'), 'transfer/' + par, cmp_groups('fcccc')))
         out.append(mk_case(dict(base, op='sm', cov=aflat(cov)), 'spectral/' + par, cmp_groups('ccccfl')))
         out.append(mk_case(dict(base, op='gc', cov=aflat(cov)), 'granger/%s/%s' % (zero or 'coupled', par), cmp_groups('lllcccc')))
+        if i % 4 == 0:
+            out.append(mk_case(dict(base, op='gcs', cov=aflat(cov)), 'granger-relabelled/' + par, cmp_groups('lllcccc')))
     for n in range(0, 7):
         out.append(mk_case({'op': 'defij', 'n': n}, 'analyzer/default-ij', None))
-    n_an = 8 if not big else 80
+    n_an = 24 if not big else 150
     for i in range(n_an):
         nproc = int(nrng.choice([2, 3, 4]))
         N = int(nrng.choice([128, 200]))
